@@ -291,20 +291,31 @@ fn grid(level: u32) -> Vec<Case> {
     // an alternative made only of unparseable tokens carries no comparator and is dropped
     out.push(Case { text: "foo || 1.2.3".into(), rr: vec![npm_primitive("", &partials()[15])] });
     out.push(Case { text: "1.2.3 foo".into(), rr: vec![npm_primitive("", &partials()[15])] });
+    // long lists whose LAST member decides (a cap on the number of comparators / alternatives widens or narrows the range)
+    for k in [12usize, 30, 70, 150] {
+        let ge = |a, b, c| Cmp { op: Op::Ge, k: k3(a, b, c) };
+        let lt = |a, b, c| Cmp { op: Op::Lt, k: k3(a, b, c) };
+        let mut cs: CSet = (0..k).map(|_| ge(0, 0, 1)).collect(); cs.push(ge(2, 0, 0));
+        out.push(Case { text: format!("{}>=2.0.0", ">=0.0.1 ".repeat(k)), rr: vec![cs] });
+        let mut cs: CSet = (0..k).map(|_| lt(5, 0, 0)).collect(); cs.push(lt(1, 0, 0));
+        out.push(Case { text: format!("{}<1.0.0", "<5.0.0 ".repeat(k)), rr: vec![cs] });
+        let mut rr: RefRange = (0..k).map(|_| vec![Cmp { op: Op::Eq, k: k3(0, 0, 1) }]).collect(); rr.push(vec![Cmp { op: Op::Eq, k: k3(3, 0, 0) }]);
+        out.push(Case { text: format!("{}3.0.0", "0.0.1 || ".repeat(k)), rr });
+    }
     out
 }
 fn versions() -> Vec<Version> {
     let mut out = vec![];
     for core in ["0.0.0", "0.0.1", "0.0.2", "0.1.0", "0.1.2", "0.2.0", "0.5.0", "1.0.0", "1.0.1", "1.2.0", "1.2.2", "1.2.3", "1.2.4", "1.3.0", "1.9.9", "2.0.0", "2.0.1", "2.1.0", "2.1.3", "3.0.0", "3.1.0", "4.0.0", "4.0.1", "5.0.0"] {
-        for pre in ["", "-0", "-1", "-2", "-5", "-alpha", "-alpha.0", "-beta", "-beta.1", "-rc.1", "-rc.2"] {
-            out.push(Version::parse(format!("{}{}", core, pre)).unwrap());
+        for pre in ["", "-0", "-1", "-2", "-5", "-alpha", "-alpha.0", "-beta", "-beta.1", "-rc", "-rc.1", "-rc.2", "-Beta"] {
+            out.push(vparse(format!("{}{}", core, pre)).unwrap());
         }
     }
-    out.push(Version::parse("1.2.3+build").unwrap());
-    out.push(Version::parse("1.2.3-beta+b.7").unwrap());
-    out.push(Version::parse("900719925474099.0.0").unwrap());
-    out.push(Version::parse("1.900719925474099.900719925474099").unwrap());
-    out.push(Version::parse("2.0.0-0").unwrap());
+    out.push(vparse("1.2.3+build").unwrap());
+    out.push(vparse("1.2.3-beta+b.7").unwrap());
+    out.push(vparse("900719925474099.0.0").unwrap());
+    out.push(vparse("1.900719925474099.900719925474099").unwrap());
+    out.push(vparse("2.0.0-0").unwrap());
     out
 }
 
@@ -314,13 +325,41 @@ fn fail(prop: &str, check: &str, input: String, detail: String) -> ! {
     std::process::exit(1)
 }
 
+
+// ------------------------------------------------------------------------------------------------ both ways in
+// `Range::parse` / `Version::parse` and `str::parse::<..>()` (FromStr: the README's and serde's way in) must be the same function
+static PROP: std::sync::OnceLock<String> = std::sync::OnceLock::new();
+fn cur_prop() -> &'static str { PROP.get().map(|s| s.as_str()).unwrap_or("C06") }
+fn rparse<S: AsRef<str>>(t: S) -> Result<Range, nodejs_semver::SemverError> {
+    let t = t.as_ref();
+    let a = Range::parse(t);
+    let b = t.parse::<Range>();
+    match (&a, &b) {
+        (Ok(x), Ok(y)) => if x != y || x.to_string() != y.to_string() { fail(cur_prop(), "str::parse::<Range>() == Range::parse()", format!("`{}`", t), format!("parse: `{}` from_str: `{}`", x, y)) },
+        (Err(_), Err(_)) => {}
+        _ => fail(cur_prop(), "str::parse::<Range>() == Range::parse()", format!("`{}`", t), format!("parse ok: {} from_str ok: {}", a.is_ok(), b.is_ok())),
+    }
+    a
+}
+fn vparse<S: AsRef<str>>(t: S) -> Result<Version, nodejs_semver::SemverError> {
+    let t = t.as_ref();
+    let a = Version::parse(t);
+    let b = t.parse::<Version>();
+    match (&a, &b) {
+        (Ok(x), Ok(y)) => if x != y || x.build != y.build || x.pre_release != y.pre_release || x.to_string() != y.to_string() { fail(cur_prop(), "str::parse::<Version>() == Version::parse()", format!("`{}`", t), format!("parse: `{}` from_str: `{}`", x, y)) },
+        (Err(_), Err(_)) => {}
+        _ => fail(cur_prop(), "str::parse::<Version>() == Version::parse()", format!("`{}`", t), format!("parse ok: {} from_str ok: {}", a.is_ok(), b.is_ok())),
+    }
+    a
+}
+
 // ------------------------------------------------------------------------------------------------ C01 / C02 / C03
 fn check_npm(prop: &str, level: u32) {
     check_any(prop);
     let vs = versions();
     let ks: Vec<K> = vs.iter().map(key).collect();
     for c in grid(level) {
-        match Range::parse(&c.text) {
+        match rparse(&c.text) {
             Ok(r) => {
                 for (v, k) in vs.iter().zip(&ks) {
                     let got = r.satisfies(v);
@@ -420,21 +459,33 @@ fn gen_simple(r: &mut Rng) -> GenSimple {
         return GenSimple { text, cs };
     }
 }
+/// a valid comparator with junk glued to its end: garbage as a whole (a parser that keeps the valid prefix widens the range)
+fn gen_glued_garbage(r: &mut Rng) -> String {
+    loop {
+        let s = gen_simple(r);
+        if s.text.contains(' ') || s.text.contains('\t') { continue; }
+        return format!("{}{}", s.text, r.pick(&["|x", "|<2.0.0", "!", "_", "@1", ",", "=", "<"]));
+    }
+}
 fn gen_alternative(r: &mut Rng) -> (String, Option<CSet>) {
     if r.chance(12) {
         let (f, t) = (gen_partial(r), gen_partial(r));
         // the hyphen form needs plain partials: no `v`less restrictions, but a leading `v` is fine
-        return (format!("{} - {}", f.text, t.text), Some(npm_hyphen(&f.p, &t.p)));
+        // npm: `\\s+-\\s+` -- any run of blanks on either side
+        let (b1, b2) = (*r.pick(&[" ", " ", " ", " ", "  ", "\t", " \t", "   "]), *r.pick(&[" ", " ", " ", " ", "  ", "\t", "\t ", "   "]));
+        return (format!("{}{}-{}{}", f.text, b1, b2, t.text), Some(npm_hyphen(&f.p, &t.p)));
     }
-    if r.chance(4) { return (r.pick(&["foo", "bar baz", "#", "a|b", "V1.2.3", ">=V1", "1.2.3.4", "^V2", "1.2.3.", "1..2"]).to_string(), None); }
+    if r.chance(4) { return (r.pick(&["foo", "bar baz", "#", "a|b", "V1.2.3", ">=V1", "1.2.3.4", "^V2", "1.2.3.", "1..2", ">=1.2.3.4", "^1.2.3.4", "~1.2.3.4", ">=1.2.x.4", "1.2.3|x", ">=1.0.0|<2.0.0", "1.x|2.x"]).to_string(), None); }
+    if r.chance(3) { let g = gen_glued_garbage(r); return (g, None); }
     // the empty range is `*` (README grammar: range ::= ... | '')
     if r.chance(3) { return (r.pick(&["", "", " ", "   "]).to_string(), Some(any_set())); }
-    let n = 1 + if r.chance(60) { 0 } else if r.chance(85) { 1 + r.below(3) } else { 4 + r.below(4) };
+    let n = 1 + if r.chance(60) { 0 } else if r.chance(85) { 1 + r.below(3) } else if r.chance(92) { 4 + r.below(4) } else { 20 + r.below(30) };
     let mut text = String::new();
     let mut cs: CSet = vec![];
     for i in 0..n {
         if i > 0 { text.push_str(*r.pick(&[" ", " ", " ", " ", " ", "  ", "    ", "\t", " \t "])); }
-        if r.chance(6) { text.push_str(*r.pick(&["foo ", "#1 ", "a|b ", "V1.2.3 ", ">=V1 ", "1.2.3.4 ", "~V1.2 "])); }
+        if r.chance(6) { text.push_str(*r.pick(&["foo ", "#1 ", "a|b ", "V1.2.3 ", ">=V1 ", "1.2.3.4 ", "~V1.2 ", ">=1.2.3.4 ", "^1.2.3.4 ", "1.2.3|x ", ">=1.0.0|<2.0.0 "])); }
+        if r.chance(2) { text.push_str(&gen_glued_garbage(r)); text.push(' '); }
         let s = gen_simple(r);
         text.push_str(&s.text);
         cs.extend(s.cs);
@@ -443,7 +494,7 @@ fn gen_alternative(r: &mut Rng) -> (String, Option<CSet>) {
     (text, Some(cs))
 }
 fn gen_range(r: &mut Rng) -> Case {
-    let n = 1 + if r.chance(65) { 0 } else if r.chance(85) { 1 + r.below(3) } else { 4 + r.below(5) };
+    let n = 1 + if r.chance(65) { 0 } else if r.chance(85) { 1 + r.below(3) } else if r.chance(92) { 4 + r.below(5) } else { 25 + r.below(50) };
     let mut text = String::new();
     let mut rr: RefRange = vec![];
     for i in 0..n {
@@ -484,11 +535,12 @@ fn check_npm_random(prop: &str, seed: u64, n: usize) {
     for _ in 0..n {
         let c = gen_range(&mut r);
         let ks = probe_versions(&c.rr, &mut r);
-        match Range::parse(&c.text) {
+        match rparse(&c.text) {
             Ok(range) => {
                 for k in &ks {
-                    let vt = fmt_key(k);
-                    let v = match Version::parse(&vt) { Ok(v) => v, Err(_) => continue };
+                    // build metadata never matters
+                    let vt = format!("{}{}", fmt_key(k), if r.chance(80) { "" } else { *r.pick(&["+b", "+zz.9", "+0", "+a"]) });
+                    let v = match vparse(&vt) { Ok(v) => v, Err(_) => continue };
                     let got = range.satisfies(&v);
                     let want = ref_sat(&c.rr, k);
                     if got != want { fail(prop, "satisfies == npm desugaring (random case)", format!("range `{}` version `{}`", c.text, vt), format!("crate: {} npm: {} (parsed as `{}`)", got, want, range)); }
@@ -513,6 +565,7 @@ fn dump_random(seed: u64, n: usize) {
 }
 
 // ------------------------------------------------------------------------------------------------ C04 / C16
+fn hash_of_slice(v: &[Version]) -> u64 { let mut h = DefaultHasher::new(); v.hash(&mut h); h.finish() }
 fn hash_of(v: &Version) -> u64 { let mut h = DefaultHasher::new(); v.hash(&mut h); h.finish() }
 /// the reference key of a version text `M.m.p[-pre][+build]`, built from the text itself (not from what the crate parsed)
 fn key_of_text(t: &str) -> K {
@@ -537,6 +590,8 @@ fn order_texts() -> Vec<String> {
             for build in ["", "+b", "+build.5"] { out.push(format!("{}{}{}", core, pre, build)); }
         }
     }
+    // many identifiers (a copy that keeps only the first few is not the same version)
+    for t in ["1.0.0-a.b.c.d.e.f.g.h.i.j.k.l", "1.0.0-a.b.c.d.e.f.g.h.i.j.k", "1.0.0-a.b.c.d.e.f.g.h", "1.0.0-1.2.3.4.5.6.7.8.9.10.11.12.13.14.15.16.17+b.1.2.3.4.5.6.7.8.9.10"] { out.push(t.to_string()); }
     out
 }
 fn order_versions() -> Vec<Version> {
@@ -546,7 +601,7 @@ fn order_versions() -> Vec<Version> {
                     "alpha", "rc1", "beta.2", "Alpha", "-Beta", "-RC.1", "-rc.1", "-SNAPSHOT", "-aLpHa", "-Z", "-z",
                     "--1", "-rc.-", "-rc.0-", "-01", "-rc.01", "-rc.900719925474100", "-rc.1000000000000000", "-rc.18446744073709551615", "-rc.18446744073709551616", "-900719925474099", "-900719925474100"] {
             for build in ["", "+b", "+build.5"] {
-                if let Ok(v) = Version::parse(format!("{}{}{}", core, pre, build)) { out.push(v); }
+                if let Ok(v) = vparse(format!("{}{}{}", core, pre, build)) { out.push(v); }
             }
         }
     }
@@ -557,7 +612,7 @@ fn check_c04() {
     let mut vs = vec![];
     let mut ks = vec![];
     for t in &texts {
-        match Version::parse(t) {
+        match vparse(t) {
             Ok(v) => {
                 // the returned fields are exactly the denoted numbers and identifiers (numeric iff all digits and below 2^64)
                 let want = key_of_text(t);
@@ -575,7 +630,20 @@ fn check_c04() {
         if (a == b) != (got == Ordering::Equal) { fail("C04", "== iff Equal", format!("`{}` vs `{}`", a, b), format!("== is {}", a == b)); }
         if got == Ordering::Equal && hash_of(a) != hash_of(b) { fail("C04", "equal versions hash equally", format!("`{}` vs `{}`", a, b), String::new()); }
         if b.cmp(a) != got.reverse() { fail("C04", "antisymmetry", format!("`{}` vs `{}`", a, b), String::new()); }
+        // the operators and the provided methods are the same order (an overridden `lt`, `ne`, `max`, ... is what callers run)
+        if (a < b) != (got == Ordering::Less) || (a <= b) != (got != Ordering::Greater) || (a > b) != (got == Ordering::Greater) || (a >= b) != (got != Ordering::Less) || (a != b) != (got != Ordering::Equal) {
+            fail("C04", "< <= > >= != agree with cmp", format!("`{}` vs `{}`", a, b), format!("cmp: {:?} <:{} <=:{} >:{} >=:{} !=:{}", got, a < b, a <= b, a > b, a >= b, a != b));
+        }
+        if std::cmp::max(a, b).cmp(a) == Ordering::Less || std::cmp::max(a, b).cmp(b) == Ordering::Less || std::cmp::min(a, b).cmp(a) == Ordering::Greater || std::cmp::min(a, b).cmp(b) == Ordering::Greater
+            || a.clone().max(b.clone()).cmp(std::cmp::max(a, b)) != Ordering::Equal || a.clone().min(b.clone()).cmp(std::cmp::min(a, b)) != Ordering::Equal {
+            fail("C04", "max / min agree with cmp", format!("`{}` vs `{}`", a, b), String::new());
+        }
+        if got == Ordering::Equal && (hash_of_slice(std::slice::from_ref(a)) != hash_of_slice(std::slice::from_ref(b))) { fail("C04", "equal versions hash equally inside a slice / Vec", format!("`{}` vs `{}`", a, b), String::new()); }
     } }
+    for a in &vs {
+        let c = a.clone();
+        if c.major != a.major || c.minor != a.minor || c.patch != a.patch || c.pre_release != a.pre_release || c.build != a.build { fail("C04", "clone is the same version (all five fields)", format!("`{}`", a), format!("clone: `{}`", c)); }
+    }
     // transitivity on a reduced set (all triples)
     let red: Vec<&Version> = vs.iter().filter(|v| v.build.is_empty() && (v.major == 1 && v.minor == 0 && v.patch == 0 || v.pre_release.is_empty())).collect();
     for a in &red { for b in &red { for c in &red {
@@ -590,7 +658,7 @@ fn check_c04() {
 }
 fn check_c16() {
     let texts = order_texts();
-    let vs: Vec<Version> = texts.iter().map(|t| Version::parse(t).unwrap_or_else(|e| fail("C16", "a well formed version text parses", format!("`{}`", t), e.to_string()))).collect();
+    let vs: Vec<Version> = texts.iter().map(|t| vparse(t).unwrap_or_else(|e| fail("C16", "a well formed version text parses", format!("`{}`", t), e.to_string()))).collect();
     let ks: Vec<K> = texts.iter().map(|t| key_of_text(t)).collect();
     for (a, ka) in vs.iter().zip(&ks) { for (b, kb) in vs.iter().zip(&ks) {
         let got = a.diff(b);
@@ -598,6 +666,10 @@ fn check_c16() {
         if got != want { fail("C16", "diff == node-semver diff", format!("`{}`.diff(`{}`)", a, b), format!("crate: {:?} spec: {:?}", got, want)); }
         if got != b.diff(a) { fail("C16", "symmetric", format!("`{}`.diff(`{}`)", a, b), format!("{:?} vs {:?}", got, b.diff(a))); }
     } }
+    // the release type is reported under node-semver's names
+    for (d, name) in [(VersionDiff::Major, "major"), (VersionDiff::Minor, "minor"), (VersionDiff::Patch, "patch"), (VersionDiff::PreMajor, "premajor"), (VersionDiff::PreMinor, "preminor"), (VersionDiff::PrePatch, "prepatch"), (VersionDiff::PreRelease, "prerelease")] {
+        if d.to_string() != name { fail("C16", "release type names are node-semver's", format!("{:?}", d), format!("printed as `{}`", d)); }
+    }
 }
 
 // ------------------------------------------------------------------------------------------------ set operations
@@ -616,10 +688,22 @@ fn op_ranges() -> Vec<Case> {
         for p in parts { cs.extend(ss.iter().find(|s| s.text == p).unwrap().cs.clone()); }
         out.push(Case { text: t.into(), rr: vec![cs] });
     }
+    // build metadata never matters: these must behave exactly like their metadata-free twins
+    for (t, twin) in [(">=1.2.3+linux", ">=1.2.3"), (">=1.2.3+darwin", ">=1.2.3"), ("<=1.2.3+b.7", "<=1.2.3"), ("1.2.3+exp.sha", "1.2.3"), (">=1.0.0+a <2.0.0+b", ">=1.0.0 <2.0.0")] {
+        if let Some(c) = out.iter().find(|c| c.text == twin) { let rr = c.rr.clone(); out.push(Case { text: t.into(), rr }); }
+    }
+    // tags where one is a prefix of the other (`rc` < `rc.1`), upper-case tags (ASCII order: `Beta` < `alpha`), and texts that admit nothing
+    // (they must not parse; if they do, the empty result has to behave like any other range)
+    let kp = |pre: &[&str]| K { ma: 1, mi: 0, pa: 0, pre: pre.iter().map(|x| match x.parse::<u64>() { Ok(n) => Id::N(n), Err(_) => Id::A(x.to_string()) }).collect() };
+    for (t, op, pre) in [("<=1.0.0-rc", Op::Le, vec!["rc"]), ("<=1.0.0-rc.1", Op::Le, vec!["rc", "1"]), (">=1.0.0-rc.1", Op::Ge, vec!["rc", "1"]), (">1.0.0-rc", Op::Gt, vec!["rc"]), ("<1.0.0-rc.1", Op::Lt, vec!["rc", "1"]),
+                         (">=1.0.0-Beta", Op::Ge, vec!["Beta"]), ("<=1.0.0-alpha", Op::Le, vec!["alpha"]), (">=1.0.0-alpha", Op::Ge, vec!["alpha"])] {
+        out.push(Case { text: t.into(), rr: vec![vec![Cmp { op, k: kp(&pre) }]] });
+    }
+    for t in [">=2.0.0 <1.0.0", "<1.0.0 >2.0.0"] { out.push(Case { text: t.into(), rr: vec![] }); }
     out.dedup_by(|a, b| a.text == b.text);
     out
 }
-fn exact(v: &Version) -> Range { Range::parse(format!("{}.{}.{}{}", v.major, v.minor, v.patch, if v.pre_release.is_empty() { String::new() } else { format!("-{}", v.pre_release.iter().map(|i| i.to_string()).collect::<Vec<_>>().join(".")) })).unwrap() }
+fn exact(v: &Version) -> Range { rparse(format!("{}.{}.{}{}", v.major, v.minor, v.patch, if v.pre_release.is_empty() { String::new() } else { format!("-{}", v.pre_release.iter().map(|i| i.to_string()).collect::<Vec<_>>().join(".")) })).unwrap() }
 /// bounds membership observed through the public API: release -> satisfies, otherwise allows_any with the exact version
 fn within(r: &Range, v: &Version) -> bool { if v.pre_release.is_empty() { r.satisfies(v) } else { r.allows_any(&exact(v)) } }
 fn within_o(r: &Option<Range>, v: &Version) -> bool { match r { Some(x) => within(x, v), None => false } }
@@ -628,7 +712,7 @@ fn show(r: &Option<Range>) -> String { match r { Some(x) => x.to_string(), None 
 
 fn check_setops(prop: &str) {
     let rs = op_ranges();
-    let parsed: Vec<(Case, Range)> = rs.into_iter().filter_map(|c| Range::parse(&c.text).ok().map(|r| (c, r))).collect();
+    let parsed: Vec<(Case, Range)> = rs.into_iter().filter_map(|c| rparse(&c.text).ok().map(|r| (c, r))).collect();
     let vs = versions();
     let ks: Vec<K> = vs.iter().map(key).collect();
     // the observation itself must agree with the reference on parsed ranges
@@ -676,6 +760,16 @@ fn check_setops(prop: &str) {
             if ca.rr.len() == 1 && cb.rr.len() == 1 && all != b.difference(a).is_none() { fail(prop, "single alternatives: allows_all == B.difference(A).is_none()", format!("A=`{}` B=`{}`", ca.text, cb.text), format!("allows_all {} B\\\\A `{}`", all, show(&b.difference(a)))); }
             if ca.text == cb.text && !all { fail(prop, "every range allows all of itself", format!("A=`{}`", ca.text), String::new()); }
         }
+        if prop == "C15" || prop == "C07" || prop == "C08" {
+            // "results remain printable, re-parsable operands": the printed form parses and admits the same versions
+            for x in [&i, &d].into_iter().flatten() {
+                let t = x.to_string();
+                match rparse(&t) {
+                    Ok(y) => for v in &vs { if y.satisfies(v) != x.satisfies(v) || within(&y, v) != within(x, v) { fail(prop, "a result prints to a text that parses back to the same set", format!("A=`{}` B=`{}` v=`{}`", ca.text, cb.text, v), format!("result `{}` re-parsed `{}`", t, y)); } },
+                    Err(e) => fail(prop, "a result prints to a text that parses", format!("A=`{}` B=`{}`", ca.text, cb.text), format!("result `{}`: {}", t, e)),
+                }
+            }
+        }
         if prop == "C15" {
             // compositions: results fed back as operands
             let dd = match &d { Some(x) => a.difference(x), None => Some(a.clone()) };
@@ -710,7 +804,7 @@ fn check_c11(seed: u64) {
     let mut rng = Rng(0x2545F4914F6CDD1D ^ seed.wrapping_add(7).wrapping_mul(0x9E3779B97F4A7C15));
     for _ in 0..1500 { let c = gen_range(&mut rng); cases.push(c); }
     for c in cases {
-        let r = match Range::parse(&c.text) { Ok(r) => r, Err(_) => continue };
+        let r = match rparse(&c.text) { Ok(r) => r, Err(_) => continue };
         match r.min_version() {
             Some(m) => {
                 if !r.satisfies(&m) { fail("C11", "min_version satisfies the range", format!("range `{}`", c.text), format!("min_version `{}`", m)); }
@@ -744,8 +838,8 @@ fn check_any(prop: &str) {
 }
 fn check_c14(seed: u64) {
     check_any("C14");
-    { let any = Range::any(); let l = vec![Version::parse("0.0.0-alpha").unwrap(), Version::parse("0.1.0-rc.1").unwrap()]; if any.max_satisfying(&l).is_some() || any.min_satisfying(&l).is_some() { fail("C14", "never selects a prerelease the range does not admit", "Range::any() on [0.0.0-alpha, 0.1.0-rc.1]".into(), String::new()); } }
-    let pool: Vec<Version> = ["1.2.3", "1.2.3-beta.2", "1.2.3-alpha", "1.4.2", "2.3.1", "2.0.0-rc.1", "2.0.0", "1.2.3+build", "0.5.0", "1.2.4", "3.0.0-0", "1.0.0"].iter().map(|s| Version::parse(s).unwrap()).collect();
+    { let any = Range::any(); let l = vec![vparse("0.0.0-alpha").unwrap(), vparse("0.1.0-rc.1").unwrap()]; if any.max_satisfying(&l).is_some() || any.min_satisfying(&l).is_some() { fail("C14", "never selects a prerelease the range does not admit", "Range::any() on [0.0.0-alpha, 0.1.0-rc.1]".into(), String::new()); } }
+    let pool: Vec<Version> = ["1.2.3", "1.2.3-beta.2", "1.2.3-alpha", "1.4.2", "2.3.1", "2.0.0-rc.1", "2.0.0", "1.2.3+build", "0.5.0", "1.2.4", "3.0.0-0", "1.0.0"].iter().map(|s| vparse(s).unwrap()).collect();
     let mut lists: Vec<Vec<Version>> = vec![vec![]];
     for a in &pool { lists.push(vec![a.clone()]); for b in &pool { lists.push(vec![a.clone(), b.clone()]); } }
     for a in pool.iter().take(7) { for b in pool.iter().take(7) { for c in pool.iter().take(7) { lists.push(vec![a.clone(), b.clone(), c.clone()]); } } }
@@ -759,7 +853,7 @@ fn check_c14(seed: u64) {
     for t in &texts {
         let t = t.as_str();
         let c = match g.iter().find(|c| c.text == t) { Some(c) => c, None => continue };
-        let r = match Range::parse(t) { Ok(r) => r, Err(_) => continue };
+        let r = match rparse(t) { Ok(r) => r, Err(_) => continue };
         for l in lists.iter().take(if t.matches(' ').count() == 2 || c.text.len() > 24 { 160 } else { usize::MAX }) {
             for (which, got) in [("max", r.max_satisfying(l)), ("min", r.min_satisfying(l))] {
                 // "satisfies" is npm's reading of the range text (and must agree with the crate's own answer)
@@ -789,7 +883,7 @@ fn touch_error(e: &nodejs_semver::SemverError) {
 }
 fn check_c06_strings() {
     // every string up to length 4 over an alphabet covering each token class, plus longer hand picked ones
-    let alpha: Vec<char> = "10.x*-+ <>=~^|va\u{e9}".chars().collect();
+    let alpha: Vec<char> = "10.x*-+ <>=~^|va\u{e9}\"'".chars().collect();
     let mut all: Vec<String> = vec![String::new()];
     let mut frontier: Vec<String> = vec![String::new()];
     for _ in 0..4 {
@@ -811,6 +905,8 @@ fn check_c06_strings() {
         let r = catch_unwind(AssertUnwindSafe(|| {
             match Version::parse(t) { Ok(v) => { let _ = v.to_string(); } Err(e) => touch_error(&e) }
             match Range::parse(t) { Ok(r) => { let _ = r.to_string(); let _ = r.min_version(); } Err(e) => touch_error(&e) }
+            match t.parse::<Version>() { Ok(v) => { let _ = v.to_string(); } Err(e) => touch_error(&e) }
+            match t.parse::<Range>() { Ok(r) => { let _ = r.to_string(); } Err(e) => touch_error(&e) }
         }));
         if r.is_err() { fail("C06", "parse or an accessor of the returned error panics", format!("{:?}", t), String::new()); }
     }
@@ -823,6 +919,9 @@ fn check_c06_time() {
         format!("1.2.3{}", " ".repeat(n)), " ".repeat(n), "\t".repeat(n), format!("1.2.3 ||{}", " ".repeat(n)), format!("{}1.2.3", " ".repeat(n)), format!("1.2.3{}>=2", " ".repeat(n)),
         format!("^{}1.2.3", " ".repeat(n)), "a".repeat(n), "1".repeat(n), "1.".repeat(n / 2), "|".repeat(n), "||".repeat(n / 2), "1.2.3 ".repeat(n / 6), ">=1.2.3 <2.0.0 || ".repeat(n / 18),
         format!("1.2.3-{}", "a.".repeat(n / 2)), format!("1.2.3-{}", "-".repeat(n)), "x ".repeat(n / 2), "1 - 2 ".repeat(n / 6), "~>".repeat(n / 2), format!("1.2.3+{}", "b.".repeat(n / 2)),
+        // all different: 12 000 alternatives, 12 000 comparators, 12 000 identifiers
+        (0..12000).map(|i| format!("1.{}.{}", i / 100, i % 100)).collect::<Vec<_>>().join(" || "), (0..12000).map(|i| format!(">={}.{}.0", i / 100, i % 100)).collect::<Vec<_>>().join(" "),
+        (0..12000).map(|i| format!("<{}.{}.0 || >{}.{}.5", i / 100, i % 100, i / 100, i % 100)).collect::<Vec<_>>().join("||"), format!("1.2.3-{}", (0..12000).map(|i| i.to_string()).collect::<Vec<_>>().join(".")),
     ];
     for t in inputs {
         let t2 = t.clone();
@@ -833,9 +932,32 @@ fn check_c06_time() {
         }
     }
 }
+/// growth: four times the input may not cost much more than four times the time (a quadratic step shows as a factor of 16)
+fn check_c06_growth() {
+    fn timed(t: &str) -> f64 {
+        let mut best = f64::MAX;
+        for _ in 0..2 { let t0 = std::time::Instant::now(); let _ = Range::parse(t); let _ = Version::parse(t); best = best.min(t0.elapsed().as_secs_f64()); }
+        best
+    }
+    let fam: Vec<(&str, Box<dyn Fn(usize) -> String>)> = vec![
+        ("distinct alternatives", Box::new(|n| (0..n).map(|i| format!("1.{}.{}", i / 100, i % 100)).collect::<Vec<_>>().join(" || "))),
+        ("distinct two-sided alternatives", Box::new(|n| (0..n).map(|i| format!(">={}.{}.0 <{}.{}.5", i / 100, i % 100, i / 100, i % 100)).collect::<Vec<_>>().join("||"))),
+        ("distinct comparators", Box::new(|n| (0..n).map(|i| format!(">={}.{}.0", i / 100, i % 100)).collect::<Vec<_>>().join(" "))),
+        ("distinct prerelease identifiers", Box::new(|n| format!("1.2.3-{}", (0..n).map(|i| format!("a{}", i)).collect::<Vec<_>>().join(".")))),
+    ];
+    for (name, f) in fam {
+        let n = 10000;
+        let (a, b) = (f(n), f(4 * n));
+        let (ta, tb) = (timed(&a), timed(&b));
+        if tb > 9.0 * ta + 0.5 {
+            fail("C06", "parsing takes time roughly linear in the input length", format!("{}: {} of them ({} bytes) take {:.3} s, {} of them ({} bytes) take {:.3} s", name, n, a.len(), ta, 4 * n, b.len(), tb), "four times the input costs more than nine times the time".into());
+        }
+    }
+}
 fn check_c06() {
     check_c06_strings();
     check_c06_time();
+    check_c06_growth();
     let mut texts: Vec<String> = grid(0).into_iter().map(|c| c.text).collect();
     texts.truncate(700);
     for t in ["2.1 - 3.0 || <2.3.2 <1.0 =3.2.1-0", "=3.1.0-0", "<=1", "<=1.x", "<=1.*.*", "<=900719925474099", ">=900719925474099.900719925474099.900719925474099", "<1.0.0-alpha", ">=1.0.0-alpha || >1.0.0-alpha"] { texts.push(t.to_string()); }
@@ -849,7 +971,7 @@ fn check_c06() {
         let r = catch_unwind(AssertUnwindSafe(|| { let _ = a.to_string(); let m = a.min_version(); for v in vs.iter().take(40) { let _ = a.satisfies(v); } let _ = a.max_satisfying(&vs); let _ = a.min_satisfying(&vs); m }));
         if r.is_err() { fail("C06", "unary Range operation panics", format!("`{}`", ta), String::new()); }
     }
-    let all = Range::parse("*").unwrap();
+    let all = rparse("*").unwrap();
     for (ta, a) in &rs {
         // two-step sequences through the universe
         if catch_unwind(AssertUnwindSafe(|| { if let Some(d) = all.difference(a) { let _ = d.min_version(); let _ = d.to_string(); if let Some(dd) = all.difference(&d) { let _ = dd.min_version(); } } })).is_err() { fail("C06", "`*`.difference(A).min_version() panics", format!("A=`{}`", ta), String::new()); }
@@ -868,12 +990,12 @@ fn check_c18() {
             for &a in $vals.iter() { for &b in $vals.iter() { for &c in $vals.iter() {
                 let v = Version::from((a as $t, b as $t, c as $t));
                 let s = format!("{}.{}.{}", a, b, c);
-                let p = Version::parse(&s).unwrap_or_else(|e| fail("C18", "`a.b.c` built by From parses", format!("{} ({})", s, stringify!($t)), e.to_string()));
+                let p = vparse(&s).unwrap_or_else(|e| fail("C18", "`a.b.c` built by From parses", format!("{} ({})", s, stringify!($t)), e.to_string()));
                 if v.major != p.major || v.minor != p.minor || v.patch != p.patch || v.pre_release != p.pre_release || v.build != p.build || v.to_string() != s { fail("C18", "From<(T,T,T)> == parse", format!("{} ({})", s, stringify!($t)), format!("got `{}`", v)); }
                 let d = b;
                 let v4 = Version::from((a as $t, b as $t, c as $t, d as $t));
                 let s4 = format!("{}.{}.{}-{}", a, b, c, d);
-                let p4 = Version::parse(&s4).unwrap_or_else(|e| fail("C18", "`a.b.c-d` built by From parses", format!("{} ({})", s4, stringify!($t)), e.to_string()));
+                let p4 = vparse(&s4).unwrap_or_else(|e| fail("C18", "`a.b.c-d` built by From parses", format!("{} ({})", s4, stringify!($t)), e.to_string()));
                 if v4.major != p4.major || v4.minor != p4.minor || v4.patch != p4.patch || v4.pre_release != p4.pre_release || v4.build != p4.build || v4.to_string() != s4 { fail("C18", "From<(T,T,T,T)> == parse", format!("{} ({})", s4, stringify!($t)), format!("got `{}`", v4)); }
             } } }
         };
@@ -891,6 +1013,7 @@ fn main() {
     let level: u32 = args.get(2).and_then(|s| s.parse().ok()).unwrap_or(0);
     let seed: u64 = args.get(3).and_then(|s| s.parse().ok()).unwrap_or(0);
     std::panic::set_hook(Box::new(|_| {}));
+    let _ = PROP.set(prop.to_string());
     match prop {
         "C01" | "C02" | "C03" => { check_npm(prop, level); check_npm_random(prop, seed, if level > 0 { 60000 } else { 6000 }); }
         "DUMP" => { dump_random(seed, 400); return; }
